@@ -1,14 +1,14 @@
 SPECIFICATION Spec
 CONSTANTS
-  Kinds <- OnlySSH
+  Kinds <- OnlyQUIC
   WLA <- OnlyAll
   WLB <- OnlyAll
-  Weak <- WeakF13
+  Weak <- WeakCred
   MaxConn = 1
   MaxSend = 1
-  MaxAdv = 3
+  MaxAdv = 1
   CacheMax = 16
-  Extras = {}
+  Extras = {"A", "B", "M"}
   Asks = {FALSE}
 INVARIANTS Attribution
 CHECK_DEADLOCK FALSE
